@@ -672,7 +672,27 @@ func check(prop, tier string, seed int64, budget, workers, maxSeeds int, race, n
 		// confirm in a fresh process before spending time on it
 		vworker, vrace := pick(g.v.Class)
 		v0 := evalScenario(vworker, prop, sc, vrace, 20)
+		if vrace {
+			// what the race detector reports depends on its shadow memory, not only on the schedule:
+			// give a race a few fresh processes to show again
+			for try := 0; try < 4 && !sameViolation(v0, g.v.Class, g.v.Signature); try++ {
+				v0 = evalScenario(vworker, prop, sc, vrace, 20)
+			}
+		}
 		if !sameViolation(v0, g.v.Class, g.v.Signature) {
+			if vrace {
+				// a race report is evidence by itself (the detector has no false positives); it is
+				// reported with the scenario that produced it although it does not replay on demand
+				fmt.Fprintf(os.Stderr, "verifctl: race %q of seed %d was reported while exploring but did not show again in 5 fresh processes; reported without minimisation\n", k, g.v.Seed)
+				sc["expect"] = g.v.Class
+				sc["expect_signature"] = g.v.Signature
+				sc["detail"] = g.v.Detail
+				path := writeReplay(prop, g.v.Class, g.v.Signature, sc)
+				fmt.Printf("violation class=%s signature=%q seeds=%d first-seed=%d (intermittent under the race detector)\n  %s\n", g.v.Class, g.v.Signature, g.count, g.v.Seed, oneLine(g.v.Detail, 600))
+				fmt.Printf("VIOLATION property=%s replay=%s\n", prop, path)
+				exit = 1
+				continue
+			}
 			infra("violation %q of seed %d did not reproduce in a fresh process (got ok=%v class=%q sig=%q): the simulation is not deterministic for this case", k, g.v.Seed, v0.OK, v0.Class, v0.Signature)
 		}
 		if v0.Scenario != nil {
